@@ -27,7 +27,10 @@ package transform
 //@   flag unproved
 //@   flag record reverseTranslate
 //@   requires t != nil
-//@   ensures err == nil ==> valid(r) && vtype(r) == t.t
+//@   modifies rh
+//@   ensures err == nil ==> valid(r) && vtype(r) == t.t && canAddr(r) && canSet(r)
+//@   ensures C02_the_translated_value_is_only_read: forall w Val :: {visnilH(rh, w)} {vptrH(rh, w)} {vlenH(rh, w)} {vcapH(rh, w)} allocT(vroot(w)) < old(clock) ==>
+//@        visnilH(rh, w) == visnilH(old(rh), w) && vptrH(rh, w) == vptrH(old(rh), w) && vlenH(rh, w) == vlenH(old(rh), w) && vcapH(rh, w) == vcapH(old(rh), w)
 
 // ---------------------------------------------------------------------------------------------
 // C14: the alias mangler's Unmangle truth table (neither / primary / alias / both)
@@ -316,3 +319,91 @@ package transform
 //@   ensures err == nil
 //@   ensures C10_unhoisted_field_passes_through: (!sf.Anonymous || (kind(sf.Type) != Ptr && kind(sf.Type) != Struct)) ==> v == fvs[0].Value
 //@   ensures C10_embedded_pointer_with_no_values_stays_unset: sf.Anonymous && kind(sf.Type) == Ptr && len(fvs) == 0 ==> valid(v) && vtype(v) == sf.Type && visnil(v)
+
+// ---------------------------------------------------------------------------------------------
+// Transformer helpers (C10, C16).  TranslateType / ReverseTranslate themselves (the cross-mangler positional
+// record) are still under assumed contracts; the helpers below are verified.
+// ---------------------------------------------------------------------------------------------
+//@ func transform.unpackFields(t) (out)
+//@   props C10
+//@   safety C16 C10
+//@   requires t != nil
+//@   loop 0:
+//@     invariant 0 <= i && i <= numField(t) && len(out) == numField(t) && fresh(out.arr)
+//@     invariant C10_fields_in_order_so_far: forall k int :: {out[k].Name} 0 <= k && k < i ==> out[k].Name == fName(t, k) && out[k].Type == fType(t, k)
+//@   ensures C10_one_entry_per_field_in_order: kind(t) == Struct ==> len(out) == numField(t)
+//@        && (forall k int :: {out[k].Name} 0 <= k && k < numField(t) ==> out[k].Name == fName(t, k) && out[k].Type == fType(t, k))
+//@   ensures kind(t) != Struct ==> len(out) == 0
+
+//@ func transform.unpackValueFields(v) (out)
+//@   props C10
+//@   safety C16 C10
+//@   requires valid(v) && vtype(v) != nil
+//@   loop 0:
+//@     invariant 0 <= i && i <= numField(vtype(v)) && len(out) == numField(vtype(v)) && fresh(out.arr)
+//@     invariant C10_values_in_order_so_far: forall k int :: {out[k].Value} 0 <= k && k < i ==> out[k].Value == vField(v, k)
+//@   ensures C10_one_value_per_field_in_order: kind(vtype(v)) == Struct ==> len(out) == numField(vtype(v))
+//@        && (forall k int :: {out[k].Value} 0 <= k && k < numField(vtype(v)) ==> out[k].Value == vField(v, k))
+//@   ensures kind(vtype(v)) != Struct ==> len(out) == 0
+
+//@ func transform.isStructishTypedField(field) (r)
+//@   props C10
+//@   safety C16 C10
+//@   requires field.Type != nil
+//@   ensures C10_structish_iff: r <==> (kind(field.Type) == Struct || ((kind(field.Type) == Ptr || kind(field.Type) == Array || kind(field.Type) == Slice) && kind(elem(field.Type)) == Struct))
+
+//@ func transform.initFieldTransformPairs(fields) (out)
+//@   props C10
+//@   safety C16 C10
+//@   loop 0:
+//@     invariant len(out) == len(fields) && fresh(out.arr)
+//@     invariant forall k int :: {out[k].transform} 0 <= k && k < rangeidx && k < len(fields) ==> out[k].transform == nil
+//@   ensures C10_one_pair_per_field_without_transformer: len(out) == len(fields) && (forall k int :: {out[k].transform} 0 <= k && k < len(fields) ==> out[k].transform == nil)
+
+//@ func transform.(*Transformer).maybeRecursivelyUnmangle(t, fieldState, mangledField) (mf, uerr)
+//@   props C10
+//@   safety C16 C10
+//@   requires t != nil && fieldState != nil
+//@   requires C10_one_pair_per_mangled_field: len(fieldState.out) >= len(mangledField)
+//@   requires C10_values_are_valid: forall k int :: {mangledField[k].Value} 0 <= k && k < len(mangledField) ==> valid(mangledField[k].Value)
+//@   requires C10_recursed_fields_have_their_mangled_shape: forall k int :: {fieldState.out[k].transform} 0 <= k && k < len(mangledField) && fieldState.out[k].transform != nil ==>
+//@        fieldState.out[k].field.Type != nil && fieldState.in.Type != nil
+//@        && (kind(vtype(mangledField[k].Value)) == Slice ==> kind(fieldState.out[k].field.Type) == Slice && kind(fieldState.in.Type) == Slice)
+//@        && (kind(vtype(mangledField[k].Value)) == Array ==> kind(fieldState.out[k].field.Type) == Array && kind(fieldState.in.Type) == Array
+//@              && arrayLen(fieldState.out[k].field.Type) == arrayLen(vtype(mangledField[k].Value)))
+//@   requires wf_values_exist_before_the_call: forall k int :: {mangledField[k].Value} 0 <= k && k < len(mangledField) ==> allocT(vroot(mangledField[k].Value)) < clock
+//@   requires C10_sub_transformers_were_built_for_the_element_type: forall k int :: {fieldState.out[k].transform} 0 <= k && k < len(mangledField) && fieldState.out[k].transform != nil
+//@        && (kind(vtype(mangledField[k].Value)) == Slice || kind(vtype(mangledField[k].Value)) == Array) ==> elem(fieldState.out[k].field.Type) != nil
+//@   modifies rh, rec_reverseTranslate
+//@   loop 0:
+//@     invariant len(mf) == len(mangledField) && fresh(mf.arr)
+//@   loop 1:
+//@     invariant 0 <= l && 0 <= z && z < len(mangledField) && len(mf) == len(mangledField) && fresh(mf.arr)
+//@     invariant valid(mf[z].Value) && vtype(mf[z].Value) == fieldState.out[z].field.Type && (kind(vtype(mf[z].Value)) == Slice || kind(vtype(mf[z].Value)) == Array)
+//@     invariant vlen(mf[z].Value) >= vlen(v) && (kind(vtype(mf[z].Value)) == Array ==> canSet(mf[z].Value)) && (kind(vtype(mf[z].Value)) == Slice ==> !canAddr(mf[z].Value) && !visnil(mf[z].Value))
+//@     invariant valid(v) && allocT(vroot(v)) < old(clock) && clock >= old(clock) && (kind(vtype(v)) == Slice || kind(vtype(v)) == Array) && kind(vtype(v)) == kind(fieldState.in.Type)
+//@   ensures C10_one_value_per_mangled_field: uerr == nil ==> len(mf) == len(mangledField)
+
+// the Mangler interface as the Transformer uses it (user manglers are trusted to keep to it)
+//@ iface transform.Mangler.Unmangle(m, sf, vs) (v, err)
+//@   modifies rh
+//@   ensures rely_manglers_only_read_their_inputs: forall w Val :: {visnilH(rh, w)} {vptrH(rh, w)} {vlenH(rh, w)} allocT(vroot(w)) < old(clock) ==>
+//@        visnilH(rh, w) == visnilH(old(rh), w) && vptrH(rh, w) == vptrH(old(rh), w) && vlenH(rh, w) == vlenH(old(rh), w)
+
+//@ func transform.(*Transformer).unmangleField(t, manglerIdx, fieldState, mangledField) (v, err)
+//@   props C10
+//@   safety C16 C10
+//@   requires t != nil && fieldState != nil && 0 <= manglerIdx && manglerIdx < len(t.manglers)
+//@   requires C10_one_pair_per_mangled_field: len(fieldState.out) >= len(mangledField)
+//@   requires C10_values_are_valid: forall k int :: {mangledField[k].Value} 0 <= k && k < len(mangledField) ==> valid(mangledField[k].Value)
+//@   requires C10_recursed_fields_have_their_mangled_shape: forall k int :: {fieldState.out[k].transform} 0 <= k && k < len(mangledField) && fieldState.out[k].transform != nil ==>
+//@        fieldState.out[k].field.Type != nil && fieldState.in.Type != nil
+//@        && (kind(vtype(mangledField[k].Value)) == Slice ==> kind(fieldState.out[k].field.Type) == Slice && kind(fieldState.in.Type) == Slice)
+//@        && (kind(vtype(mangledField[k].Value)) == Array ==> kind(fieldState.out[k].field.Type) == Array && kind(fieldState.in.Type) == Array
+//@              && arrayLen(fieldState.out[k].field.Type) == arrayLen(vtype(mangledField[k].Value)))
+//@   requires wf_values_exist_before_the_call: forall k int :: {mangledField[k].Value} 0 <= k && k < len(mangledField) ==> allocT(vroot(mangledField[k].Value)) < clock
+//@   requires C10_sub_transformers_were_built_for_the_element_type: forall k int :: {fieldState.out[k].transform} 0 <= k && k < len(mangledField) && fieldState.out[k].transform != nil
+//@        && (kind(vtype(mangledField[k].Value)) == Slice || kind(vtype(mangledField[k].Value)) == Array) ==> elem(fieldState.out[k].field.Type) != nil
+//@   requires wf_registered_manglers_are_not_nil: forall k int :: 0 <= k && k < len(t.manglers) ==> t.manglers[k] != nil
+//@   modifies rh, rec_reverseTranslate
+//@   ensures C10_a_failed_unmangle_is_reported: err != nil ==> !valid(v)
